@@ -6,6 +6,7 @@ import (
 	"fmt"
 	"io"
 	"math"
+	"net"
 	"sync"
 	"time"
 
@@ -139,7 +140,7 @@ func c11Cases(env *fw.Env) []c11Case {
 		}
 	}
 	for _, a := range []bool{true, false} {
-		for _, st := range []string{"stall-t6", "stall-t7", "stall-t8", "stall-write-timeout", "stall-linktest", "stall-linktest+local-sends"} {
+		for _, st := range []string{"stall-t6", "stall-t7", "stall-t8", "stall-write-timeout", "stall-control-write", "stall-linktest", "stall-linktest+local-sends"} {
 			if (st == "stall-t6" && !a) || (st == "stall-t7" && a) {
 				continue
 			}
@@ -191,7 +192,7 @@ func c11Cases(env *fw.Env) []c11Case {
 		// delays injected around teardown / publish / dispatch (the recovery machinery's own suspension points)
 		base := len(cs)
 		agnostic := map[string]bool{"cut-reading-lib-linktest-req": true, "cut-reading-lib-linktest-rsp": true, "cut-reading-lib-data-primary": true,
-			"cut-writing-peer-reply": true, "cut-writing-peer-primary": true, "stall-t8": true, "stall-write-timeout": true, "stall-linktest": true, "stall-linktest+local-sends": true}
+			"cut-writing-peer-reply": true, "cut-writing-peer-primary": true, "stall-t8": true, "stall-write-timeout": true, "stall-control-write": true, "stall-linktest": true, "stall-linktest+local-sends": true}
 		for _, c := range cs[:base] {
 			if agnostic[c.Kind] {
 				c.Active = !c.Active
@@ -305,6 +306,10 @@ func c11One(env *fw.Env, cs c11Case) {
 		o.T8 = 150 * time.Millisecond
 	case "stall-write-timeout":
 		o.WriteTimeout = 200 * time.Millisecond
+	case "stall-control-write":
+		// the only thing the library writes is a control frame (Linktest.req); the write timeout covers its stall
+		off := false
+		o.Linktest, o.LinktestFails, o.Suppress, o.WriteTimeout = 60*time.Millisecond, 50, &off, 200*time.Millisecond
 	case "stall-linktest+local-sends":
 		on := true
 		o.Linktest, o.T6, o.LinktestFails, o.Suppress = 60*time.Millisecond, 100*time.Millisecond, 2, &on
@@ -325,6 +330,18 @@ func c11One(env *fw.Env, cs c11Case) {
 		return
 	}
 	fail := func(key, msg string) { env.Violate(key, msg, cs) }
+	var gmu sync.Mutex
+	var gates []*peer.GateConn
+	if cs.Kind == "stall-control-write" {
+		rg.Trk.Wrap = func(c net.Conn) net.Conn {
+			g := peer.NewGateConn(c)
+			gmu.Lock()
+			gates = append(gates, g)
+			gmu.Unlock()
+
+			return g
+		}
+	}
 	if cs.Delays {
 		undo := installDelays(env.Seed+uint64(cs.Index)*23, 2*time.Millisecond, 4, "hsms.react.beforeTeardown", "hsms.teardown.afterCancel", "hsms.connectLoop.afterPublish",
 			"hsms.sup.beforeStep", "hsmsss.recv.beforeDispatch", "hsmsss.accept.adopted")
@@ -368,7 +385,7 @@ func c11One(env *fw.Env, cs c11Case) {
 	}
 	defer pc.Close()
 	needSelected := map[string]bool{"cut-reading-lib-data-primary": true, "cut-writing-peer-reply": true, "cut-writing-peer-primary": true, "cut-reading-lib-linktest-req": true,
-		"cut-reading-lib-linktest-rsp": true, "stall-t8": true, "stall-write-timeout": true, "stall-linktest": true, "stall-linktest+local-sends": true, "refused-dials": true, "failed-listens": true}
+		"cut-reading-lib-linktest-rsp": true, "stall-t8": true, "stall-write-timeout": true, "stall-control-write": true, "stall-linktest": true, "stall-linktest+local-sends": true, "refused-dials": true, "failed-listens": true}
 	if needSelected[cs.Kind] {
 		if err := rawSelect(rg, pc); err != nil {
 			env.Note("case %d (%s): setup select: %v", cs.Index, cs.Kind, err)
@@ -483,6 +500,26 @@ func c11One(env *fw.Env, cs c11Case) {
 		}()
 		if !waitFor(30*time.Second, func() bool { return rg.Conn.State() != hsms.SelectedState }) {
 			fail("stall-not-dropped-write-timeout", "128 MiB of writes to a peer that never reads (write timeout 200 ms) did not drop the link within 30 s")
+			return
+		}
+		env.Event("stall_cases", 1)
+	case "stall-control-write":
+		// the socket stops taking bytes (a closed window): the next thing the library writes is a Linktest.req, a
+		// CONTROL frame; its write must run into the write timeout (200 ms) like any other and the link be re-dialed
+		go func() { _, _ = io.Copy(io.Discard, pc.C) }()
+		gmu.Lock()
+		for _, g := range gates {
+			g.BlockWrites(true)
+		}
+		gmu.Unlock()
+		if !waitFor(4*time.Second, func() bool { return rg.Conn.State() != hsms.SelectedState }) {
+			fail("stall-not-dropped-control-write", "the socket accepted no more bytes for 4 s (write timeout 200 ms, linktest every 60 ms, T6 and all other timers >= 5 s): the blocked Linktest.req write was never timed out and the session is still Selected")
+			gmu.Lock()
+			for _, g := range gates {
+				g.BlockWrites(false)
+			}
+			gmu.Unlock()
+
 			return
 		}
 		env.Event("stall_cases", 1)
